@@ -123,6 +123,30 @@ CLAIMS = {
              'metadata are NOT decided (they need evaluation of the functions, concretely or symbolically - another technique family).',
         note='Trusts: CPython ast; the meaning of each dropped node (index in [0,length), a mod b = a, ...); guards written in other algebraic spellings than comparisons of lo/hi terms are not understood and would be reported.',
         design='DESIGN.md section 2, C06'),
+    'C05': dict(
+        technique='static analysis: def-use facts over the final merge of Array.assparse, cross-module tuple-order agreement, decorator presence (ast)',
+        text='PARTIAL (narrow). Decides that the final merge of the sparse form takes indices and inverse from one unique(..., return_inverse=True) over all parts, unravels the returned indices from that unique flat index with '
+             'the same lengths (reversed) that flattened them, inflates the values over that inverse, that unique() wires sorter/mask/inverse consistently, and that the CSR tuple order (values, rowptr, colidx, ncols) agrees '
+             'between evaluable.as_csr, matrix.assemble_csr/assemble_block_csr and function.as_csr. These are what make index tuples unique, sorted and decodable; the index arithmetic of each _assparse override, which is '
+             'where values and positions are computed, is NOT decided.',
+        note='Trusts: CPython ast; anchored on the current shape of Array.assparse (ANALYSIS-ERROR if refactored beyond recognition).',
+        design='DESIGN.md section 2, C05'),
+    'C07': dict(
+        technique='static analysis: symbolic evaluation (inlining of small wrappers, classes read through their emitted expression) of each dispatch chain to a polynomial normal form compared with a NumPy-semantics oracle (ast)',
+        text='PARTIAL. Decides dispatch-table agreement for the 42 table-shaped of 81 NumPy registrations: the chain numpy.f -> function-level implementation -> evaluable wrapper/constructor -> emitted NumPy expression has, '
+             'as a normal form over the operands (separately for complex operands where the wrapper branches on dtype), the meaning NumPy documents for f; min_dtype/force_dtype realise NumPy\'s result kind class; comparisons '
+             'reject complex, logical operations decline non-booleans; the NEP-13/18 hooks consult the table; operators come from NumPy\'s mixin. A wrong table entry is wrong at every point of every sample; broadcasting, '
+             'indexing, reshape, einsum, linear algebra and lowering with point axes (the composite implementations) are NOT decided.',
+        note='Trusts: CPython ast; oracles/numpy_api.json (documented NumPy semantics and result kinds); the normal-form algebra (one-sided: unforeseen correct spellings would be reported).',
+        design='DESIGN.md section 2, C07'),
+    'C09': dict(
+        technique='static analysis: sibling agreement of the index bookkeeping members of the product/union samples and of the integral lowering (ast)',
+        text='PARTIAL (narrow). Decides that all members of the product sample decompose the element index with the same divisor and stride points by the same factor, that all members of the union sample split and shift by '
+             'the first part\'s element/point counts, that _Integral.lower takes weights, lower args and the reduction from one loop index and contracts weights with the integrand over the point axes, and that every concrete '
+             'sample either implements the four accessors or integrates by delegation. Disagreement between siblings makes integrate != sum(w f) for nested samples; Gauss tables, exactness degrees, point containment and '
+             'trimmed mosaics are numerical tables and are NOT decided.',
+        note='Trusts: CPython ast; the member names of sample._Mul/_Add/_Integral as read today.',
+        design='DESIGN.md section 2, C09'),
 }
 
 NOT_APPLICABLE = {
